@@ -119,6 +119,16 @@ CHECKS = {
          "left unless the column was empty, first duplicate wins, caller's frame untouched.",
          "Filled values are unconstrained beyond being non-NaN; Lord Howe (30-minute DST) not enumerated.",
          "DESIGN.md section 6, C17"),
+ "C06": ("exploration",
+         "exhaustive product over IANA zone signature classes x every UTC-offset transition 2000-2037 (quick: 2019-2023), through the data classes and predict(); slot-level check of the clock normalisation",
+         "All zones known to zoneinfo are grouped by their 2000-2037 transition list (computed from pandas' own conversion); for every transition of "
+         "every class representative, hourly frames of whole local days with the transition day in the middle / first / last, with and without "
+         "usage, go through HourlyReportingData and HourlyModel.predict (document-loaded model naming the zone): index identical to data.df, strictly "
+         "chronological and unique in UTC, every prediction finite; feeding the clock normalisation the slot numbers shows that no row is shifted. "
+         "Daily/billing: 10 daily rows / 70 days of reads around every transition of 2021 (+2027) per class x NaN-temperature / NaN-usage days "
+         "adjacent to it: index equality and the finiteness pattern.",
+         "Zone classes are represented by one member; the hourly coefficients come from one Chicago fit.",
+         "DESIGN.md section 6, C06"),
 }
 
 NOT_YET = {}
